@@ -157,4 +157,13 @@ META["C15"] = {
 }
 
 _ALL = ["C%02d" % i for i in range(1, 21)]
+
+META["C01"] = {
+    "category": "proof",
+    "design_ref": "DESIGN.md section 5 / C01 and section 9.5",
+    "technique": "Lean 4: the decode/encode round trip as a total function computed from the regenerated tables (T1/T2: types, serialised properties, element plans, natural-language spellings, typeless types) with member-level theorems for any tables passing two decidable conditions the kernel evaluates on the regenerated data; model = implementation checked on ~13k generated documents per run with a model-independent oracle (exactness on canonical documents, no member dropped, second round trip = first)",
+    "text": "Proved for every value, every type and every nested normaliser: (1) a member whose key is not one of the type's known keys is carried through unchanged (unknown_kept; the 'known keys cover everything the properties write' condition is kernel-evaluated on the regenerated tables); (2) what a property of the value re-serialises to is exactly what the output carries under that key (known_kept, from key distinctness, kernel-evaluated), and a canonical property value - scalar, list of n != 1 in order, language map under the Map spelling, functional value - re-serialises to itself under the same spelling (rtProp_scalar/_list/_map/_functional), elements of non-type kind verbatim (elem_verbatim). Whole-document equality and second-round-trip stability are NOT a theorem (they need an extensionality argument over sorted member lists that was not built): they are decided per run by the oracle over the generated documents and by model=implementation agreement. A value carrying both spellings of a natural-language member loses one (recorded finding C01-both-spellings).",
+    "note": "Partial proof: member-wise theorems + per-run oracle for whole-document claims. Trusted: Lean kernel (propext, Quot.sound, Classical.choice), T1/T2 extraction (validated by C12's exhaustive probes), the harness; literal re-serialisation is taken as the identity on canonical lexical forms (C12 codecs); @context aliases are not modelled.",
+}
+
 NOT_APPLICABLE = [{"property_id": p, "reason": PENDING} for p in _ALL if p not in META]
